@@ -175,7 +175,9 @@ def rule_accumulator(rep, repo):
     for use_bias in (True, False):
       for kw, kx in (("fixed_s", "fixed_s"), ("fixed_u", "fixed_s"),
                      ("ternary", "fixed_u"), ("po2_s", "po2_s"),
-                     ("po2_s", "fixed_s")):
+                     ("po2_s", "fixed_s"), ("ternary", "po2_s"),
+                     ("binary", "po2_s"), ("binary01", "po2_u"),
+                     ("po2_s", "ternary"), ("po2_u", "binary01")):
         pe = PE(repo)
         fac = pe.call(pe.lookup_global("MultiplierFactory", mf), [], {})
         w = ta.make_operand(pe, repo, kw, "w")
